@@ -25,6 +25,24 @@ CHECKS = {
         "identity by canonical path+property values; query sessions cannot "
         "exist in the mock (ExecQuery unimplemented)",
         "DESIGN.md 4-C14", "pullsrv"),
+    "C15": (
+        "TLA+ requirement (admissible Iter outcome as a function of the "
+        "current configuration only) + code-shaped learned-flag/finally "
+        "machine model-checked by TLC in sticky, re-probing and leaking "
+        "variants; histories of real Iter calls with shadow fresh-connection "
+        "calls validated by TLC",
+        "TLC shows that the code-shaped generator machine satisfies the "
+        "requirement for use_pull_operations True/False, that a re-probing "
+        "design satisfies it for None, and that the sticky flag (the code as "
+        "it is) and a missing CloseEnumeration do not; seeded histories on a "
+        "real connection cover 7 Iter operations x True/False/None x server "
+        "pull on/off toggled between calls x MaxObjectCount classes x result "
+        "sizes x exhaust/close/drop x injected server faults x FilterQuery/"
+        "ContinueOnError x argument shapes, each with a shadow call on a fresh "
+        "connection; every event is judged by TLC.",
+        "mock server as environment; capability changes only between calls; "
+        "three sticky-flag consequences are listed as known findings",
+        "DESIGN.md 4-C15", "iterclient"),
     "C10": (
         "TLA+ reference keyed map with set-valued status codes (RepoCore); "
         "code-shaped validation-order + dict/heap machine refinement in TLC; "
